@@ -503,6 +503,11 @@ func (s *state) renameUser(from, to string) {
 		return
 	}
 
+	if ToRFC1459(to) != from {
+		// The new nickname replaces whoever we thought was using it.
+		s.deleteUser("", to)
+	}
+
 	delete(s.users, from)
 
 	user.Nick = to
